@@ -1,9 +1,9 @@
 SPECIFICATION Spec
 CONSTANTS
   Schemas <- SchQ
-  RowCounts = {0, 2}
+  RowCounts = {0, 3}
   NewCols <- NewQ
-  MaxRows = 3
+  MaxRows = 4
   MaxCols = 4
   MaxDepth = 4
   Ops = {"append", "write", "units", "faults"}
